@@ -1687,6 +1687,14 @@ where
                 // The cluster is talking about our liveness. Nothing to do.
             }
             State::Down => {
+                // We already know: either we left the cluster deliberately
+                // or we couldn't rejoin when we first learned about it.
+                // Renewing our identity now would bring an instance that
+                // called `leave_cluster` right back into the cluster
+                if self.connection_state == ConnectionState::Undead {
+                    return Ok(());
+                }
+
                 // It's impossible to refute a Down state so we'll need
                 // to rejoin somehow
                 if !self.attempt_rejoin(&mut runtime)? {
